@@ -25,20 +25,38 @@ THOROUGH_TIMEOUT_MS = 90000
 
 
 def solve(pc, goal, timeout_ms):
-    """Check validity of (pc => goal).  Returns (verdict, model|None, backend, seconds)."""
+    """Check validity of (pc => goal).  Returns (verdict, model|None, backend, seconds).
+    For an undecided obligation `backend` is the trace of the stages tried (solver:answer@seconds)."""
     t0 = time.time()
     g = z3.simplify(goal)
     if z3.is_true(g):
         return "unsat", None, "trivial", 0.0
+    trace = []
+
+    def z3_try(budget_ms, seed=0):
+        s_ = z3.Solver()
+        s_.set("timeout", int(budget_ms))
+        if seed:
+            s_.set("random_seed", seed)
+            s_.set("smt.random_seed", seed)
+        s_.add(*pc)
+        s_.add(z3.Not(goal))
+        t1 = time.time()
+        r_ = s_.check()
+        trace.append(f"z3[{int(budget_ms / 1000)}s,seed{seed}]:{r_}@{time.time() - t1:.1f}")
+        return r_, s_
+
+    def cvc5_try(smt_, budget_ms):
+        t1 = time.time()
+        v = cvc5_check(smt_, budget_ms)
+        trace.append(f"cvc5[{int(budget_ms / 1000)}s]:{v}@{time.time() - t1:.1f}")
+        return v
+
     first = min(timeout_ms, 3000)
-    s = z3.Solver()
     # a short first attempt; obligations z3 does not settle at once go to cvc5 and then back to z3 with the
     # full budget and, if still open, with other random seeds (slow queries are the unstable ones: a retry
     # with another seed settles most of them, and a busy machine only moves work to the later stages)
-    s.set("timeout", first)
-    s.add(*pc)
-    s.add(z3.Not(goal))
-    r = s.check()
+    r, s = z3_try(first)
     if os.environ.get("PYVC_RSTATS"):
         st = s.statistics()
         print("RSTAT", r, round(time.time() - t0, 3), [st.get_key_value(k) for k in st.keys() if k == "rlimit count"], file=sys.stderr)
@@ -48,19 +66,11 @@ def solve(pc, goal, timeout_ms):
         return "sat", s.model(), "z3", time.time() - t0
     # z3 undecided within the short budget: cvc5 on the SMT-LIB text, then z3 with the full budget
     smt = s.to_smt2()
-    verdict = cvc5_check(smt, timeout_ms)
-    if verdict == "unsat":
+    if cvc5_try(smt, timeout_ms) == "unsat":
         return "unsat", None, "cvc5", time.time() - t0
     if timeout_ms > first:
         for seed in (0, 7, 23):
-            s2 = z3.Solver()
-            s2.set("timeout", timeout_ms)
-            if seed:
-                s2.set("random_seed", seed)
-                s2.set("smt.random_seed", seed)
-            s2.add(*pc)
-            s2.add(z3.Not(goal))
-            r = s2.check()
+            r, s2 = z3_try(timeout_ms, seed)
             if r == z3.unsat:
                 return "unsat", None, "z3", time.time() - t0
             if r == z3.sat:
@@ -68,18 +78,14 @@ def solve(pc, goal, timeout_ms):
             if time.time() - t0 > 4 * timeout_ms / 1000:
                 break
         # last resort, for a machine whose cores are all busy (budgets are wall-clock): one long attempt per solver
-        if cvc5_check(smt, 6 * timeout_ms) == "unsat":
+        if cvc5_try(smt, 6 * timeout_ms) == "unsat":
             return "unsat", None, "cvc5", time.time() - t0
-        s3 = z3.Solver()
-        s3.set("timeout", 4 * timeout_ms)
-        s3.add(*pc)
-        s3.add(z3.Not(goal))
-        r = s3.check()
+        r, s3 = z3_try(4 * timeout_ms)
         if r == z3.unsat:
             return "unsat", None, "z3", time.time() - t0
         if r == z3.sat:
             return "sat", s3.model(), "z3", time.time() - t0
-    return "unknown", None, "z3+cvc5", time.time() - t0
+    return "unknown", None, "; ".join(trace), time.time() - t0
 
 
 def cvc5_check(smt, timeout_ms):
@@ -94,9 +100,11 @@ def cvc5_check(smt, timeout_ms):
             capture_output=True, text=True, timeout=timeout_ms / 1000 + 5,
         )
         first = (out.stdout.strip().splitlines() or ["unknown"])[0].strip()
-        return first if first in ("sat", "unsat") else "unknown"
-    except Exception:
-        return "unknown"
+        if first in ("sat", "unsat"):
+            return first
+        return "unknown(" + (first or out.stderr.strip().splitlines()[-1] if (first or out.stderr.strip()) else "no output")[:60] + ")"
+    except Exception as exc:
+        return f"unknown({type(exc).__name__})"
     finally:
         os.unlink(name)
 
